@@ -60,10 +60,15 @@ Record result := mkr {
   r_side : list (Z * side_tag)       (* side-map insertions, non-fg pids only *)
 }.
 
+(* settled: HashSet<i32> -- members that have exited / been killed, or are currently stopped
+   (/repo 1687e77); kept duplicate-free, so len() is the length *)
+Definition set_insert (pid : Z) (s : list Z) : list Z := if contains s pid then s else pid :: s.
+Definition set_remove (pid : Z) (s : list Z) : list Z := filter (fun x => negb (Z.eqb x pid)) s.
+
 (* The [loop { ... }] of wait_fg_job. State: cmd_result.status,
-   count_waited, and the two bookkeeping fields consumed / side. *)
+   settled, and the two bookkeeping fields consumed / side. *)
 Fixpoint wait_loop (pids : list Z) (pid_last : Z) (count_child : nat)
-         (evs : list ws) (status : Z) (count_waited : nat)
+         (evs : list ws) (status : Z) (settled : list Z)
          (consumed : nat) (side : list (Z * side_tag)) {struct evs} : result :=
   match evs with
   | [] =>
@@ -80,8 +85,10 @@ Fixpoint wait_loop (pids : list Z) (pid_last : Z) (count_child : nat)
       else
         let pid := ws_pid w in
         let is_a_fg_child := contains pids pid in
-        let count_waited :=
-          if is_a_fg_child && negb (is_continued w) then S count_waited else count_waited in
+        let settled :=
+          if is_a_fg_child then
+            (if is_continued w then set_remove pid settled else set_insert pid settled)
+          else settled in
         (* if / else if chain; the boolean is true where the branch does [continue] *)
         let '(side, cont) :=
           if is_exited w then
@@ -94,22 +101,22 @@ Fixpoint wait_loop (pids : list Z) (pid_last : Z) (count_child : nat)
             ((if is_a_fg_child then side else side ++ [(pid, SKilled)]), false)
           else (side, false) in
         if cont then
-          wait_loop pids pid_last count_child rest status count_waited (S consumed) side
+          wait_loop pids pid_last count_child rest status settled (S consumed) side
         else
           let status :=
             if is_a_fg_child && Z.eqb pid pid_last then get_status w else status in
-          if Nat.leb count_child count_waited then
+          if Nat.leb count_child (length settled) then
             mkr status (S consumed) rest side
           else
-            wait_loop pids pid_last count_child rest status count_waited (S consumed) side
+            wait_loop pids pid_last count_child rest status settled (S consumed) side
   end.
 
 Definition wait_fg_job (pids : list Z) (evs : list ws) : result :=
-  (* let mut cmd_result = CommandResult::new(); count_waited = 0 *)
+  (* let mut cmd_result = CommandResult::new(); settled = {} *)
   let count_child := length pids in
   match pids with
   | [] => mkr 0 0 evs []              (* if count_child == 0 { return cmd_result; } *)
   | _ :: _ =>
       let pid_last := last pids 0 in  (* pids.last().unwrap() *)
-      wait_loop pids pid_last count_child evs 0 0%nat 0%nat []
+      wait_loop pids pid_last count_child evs 0 [] 0%nat []
   end.
